@@ -1,0 +1,20 @@
+//go:build verif
+
+package clock
+
+import "time"
+
+// Deterministic-simulation hook (build tag verif): when a simulated clock is
+// installed, Now() returns it instead of the wall clock.
+const simEnabled = true
+
+var simNowFn func() time.Time
+
+func SimSetNow(f func() time.Time) { simNowFn = f }
+
+func simNow() (time.Time, bool) {
+	if simNowFn == nil {
+		return time.Time{}, false
+	}
+	return simNowFn(), true
+}
